@@ -52,6 +52,10 @@ def run(ctx):
     x15(ctx, R)
     x13(ctx, R)
     x14(ctx, R)
+    x16(ctx, R)
+    # ... by evaluation: the argument interpreter followed over sample argument sequences raises nothing but its own three exceptions
+    from .geval import g11
+    g11(ctx, R, aspects=("crash",))
     l7(ctx, R)
 
 
@@ -1390,6 +1394,43 @@ def x11(ctx, R):
             ctx.holds("X11", "curlineno is computed by %s (its value is rule Z2 of C18; it raises nothing of its own)" % t[:40])
         else:
             ctx.violation("X11", ln, "lineno-formula", "curlineno is %s, not 1 + number of newlines before the position" % t, node=ln.node)
+
+
+# ------------------------------------------------------------------------------- X16
+def x16(ctx, R):
+    """parse() accepts str as well as bytes (it converts at the top); whatever it does later with its own parameter that only bytes
+    can do (`.decode(...)` of a slice when it builds a message) needs that conversion on every path."""
+    ctx.rule("X16", "bytes-only operations on parse()'s text parameter are preceded by the str -> bytes conversion of that parameter")
+    f = R.parse
+    if len(f.params) < 2:
+        return
+    text = f.params[1]
+
+    def rooted(e):
+        while isinstance(e, (ast.Subscript, ast.Attribute, ast.Call)):
+            e = e.value if not isinstance(e, ast.Call) else e.func
+        return isinstance(e, ast.Name) and e.id == text
+    uses = [c for c in walk_no_nested(f.node) if isinstance(c, ast.Call) and isinstance(c.func, ast.Attribute) and c.func.attr == "decode"
+            and rooted(c.func.value)]
+    if not uses:
+        ctx.holds("X16", "%s applies no bytes-only operation to %s" % (f.qualname, text))
+        return
+    cfg = ctx.cfg(f)
+    conv = [st for st in walk_no_nested(f.node) if isinstance(st, ast.Assign) and any(isinstance(t, ast.Name) and t.id == text for t in st.targets)
+            and isinstance(st.value, ast.Call) and isinstance(st.value.func, ast.Attribute) and st.value.func.attr == "encode" and rooted(st.value.func.value)]
+    conv_if = [getattr(st, "_parent", None) for st in conv]
+    conv_if = [i_ for i_ in conv_if if isinstance(i_, ast.If) and isinstance(i_.test, ast.Call) and call_name(i_.test) == "isinstance"
+               and i_.test.args and isinstance(i_.test.args[0], ast.Name) and i_.test.args[0].id == text]
+    heads = [x for i_ in conv_if for x in cfg.nodes_for(i_)]
+    for c in uses:
+        nodes = cfg.node_containing(c)
+        if heads and all(cfg.dominates(heads, nd, exc=False) for nd in nodes):
+            ctx.holds("X16", "%s: %s after `if isinstance(%s, str): %s = %s.encode(...)`" % (f.qualname, norm(c)[:40], text, text, text))
+        else:
+            ctx.violation("X16", f, "bytes-op-on-str:%s" % norm(c.func.value)[:40], "%s applies .decode() to (a slice of) its parameter %s, which is still "
+                          "a str when the caller passed one: no `if isinstance(%s, str): %s = %s.encode(...)` precedes it"
+                          % (f.qualname, text, text, text, text), node=c,
+                          witness="parse('keep ];') raises AttributeError: 'str' object has no attribute 'decode'")
 
 
 # ------------------------------------------------------------------------------- X15
